@@ -262,6 +262,22 @@ CLAIMED["C15"] = dict(
 PENDING = {}
 
 
+# what the rounds of seeded changes added to the exploration (DESIGN §9), by model
+_EXTRA = {
+    ("C01", "C02"): " + monitor-only hostile programs (raising callbacks and handlers, re-entrant callbacks, wait(till) of every kind) + line mode",
+    ("C03", "C04", "C15"): " + the M1 exploration as a layer + operand table of | and & + line mode",
+    ("C05", "C06", "C20"): " + the M1 exploration as a layer + hostile / debug-mode lock programs + line mode",
+    ("C07", "C08", "C09"): " + the M1 and M3 explorations as layers + line mode",
+    ("C10", "C11", "C12"): " + line mode (monitors)",
+    ("C13", "C14"): " + monitor-only hostile timers (dying daemon, dropped Tills, seconds=inf) + line mode",
+    ("C16",): " + values of every kind / post-push functions (monitors) + line mode",
+}
+for _ids, _t in _EXTRA.items():
+    for _i in _ids:
+        if _i in CLAIMED and _t not in CLAIMED[_i]["technique"]:
+            CLAIMED[_i]["technique"] += _t
+
+
 def main():
     props = [json.loads(l) for l in open(os.path.join(VERIF, "properties.jsonl"))]
     checks = []
